@@ -252,6 +252,8 @@ def collapses(tree):
 
 def run_case(args):
     label, tree = args
+    if isinstance(tree, str):
+        return run_xml_case(args)
     import prov.model as M
     signal.signal(signal.SIGALRM, I._alarm)
     signal.alarm(60)
@@ -322,6 +324,78 @@ def run_case(args):
         signal.alarm(0)
 
 
+XML_LIB_ERRORS = LIB_ERRORS + ("ProvXMLException",)
+
+
+def run_xml_case(args):
+    """the PROV-XML half: a foreign text is loaded; stability in the same format and across formats; agreement with
+    the specification reader"""
+    label, text = args
+    import logging
+    import warnings
+    import prov.model as M
+    from harness.props import c10
+    logging.disable(logging.CRITICAL)
+    warnings.simplefilter("ignore")
+    signal.signal(signal.SIGALRM, I._alarm)
+    signal.alarm(60)
+    out = {"label": label, "fails": [], "status": None, "xmlcase": True}
+    try:
+        try:
+            d = M.ProvDocument.deserialize(content=text, format="xml")
+        except I.Timeout:
+            raise
+        except Exception as e:
+            name = type(e).__name__
+            out["status"] = "raise:" + name
+            if name not in XML_LIB_ERRORS:
+                out["fails"].append({"what": "loading well-formed PROV-XML raised a non-library error", "exc": repr(e)[:300]})
+            return out
+        out["status"] = "loaded"
+        feats = sorted(c01.diagnose(d))
+        out["feats"] = feats
+        if c01.has_mixed_kinds(d):
+            out["status"] = "loaded-excluded"
+            return out
+        want = strict_doc(d)
+        for ft in (False, True):
+            try:
+                d2 = M.ProvDocument.deserialize(content=d.serialize(format="xml", force_types=ft), format="xml")
+                if strict_doc(d2) != want:
+                    out["fails"].append({"what": "write/re-load of a loaded XML document changed its content", "feats": feats,
+                                         "force_types": ft})
+                    break
+            except Exception as e:
+                out["fails"].append({"what": "write/re-load of a loaded XML document raised", "exc": repr(e)[:300], "feats": feats})
+                break
+        try:
+            d3 = M.ProvDocument.deserialize(content=d.serialize(format="json"), format="json")
+            if strict_doc(d3) != want:
+                out["fails"].append({"what": "XML -> d -> JSON -> d' changed the content", "feats": feats})
+        except Exception as e:
+            out["fails"].append({"what": "XML -> d -> JSON -> d' raised", "exc": repr(e)[:300], "feats": feats})
+        spec = c10.spec_read_xml(text)
+        if spec != ["none"]:
+            if canon_content(spec) != canon_content(content_doc(d)):
+                out["fails"].append({"what": "loaded XML document differs from what the specification reader sees",
+                                     "feats": feats, "spec": dumps(canon_content(spec))[:700],
+                                     "lib": dumps(canon_content(content_doc(d)))[:700]})
+            out["spec"] = "agree"
+        else:
+            out["spec"] = "spec-rejects"
+        return out
+    except I.Timeout:
+        out["status"] = "timeout"
+        out["fails"].append({"what": "loading did not terminate"})
+        return out
+    except Exception:
+        out["status"] = "harness-error"
+        out["error"] = traceback.format_exc()[-1500:]
+        return out
+    finally:
+        signal.alarm(0)
+
+
 def classify(f):
     feats = set(f.get("feats", []))
     if "prefix-named-default" in feats:
@@ -364,6 +438,17 @@ def run(tier, seed, log, model_runs=True, enlarged=False):
             cases.append(("mut:%s:%s" % (k, name), m))
     for name, t in (corp if tier == "thorough" else rng.sample(corp, 40)):
         cases.append(("orig:" + name, t))
+    # the PROV-XML half: specification-driven foreign texts and the 45 XML files shipped with the tests
+    from harness import xmlgen
+    n_xml = 200 if tier == "quick" else 3000
+    for i in range(n_xml * (3 if enlarged else 1)):
+        cases.append(("xmlgen", xmlgen.gen_xml(rng)))
+    import glob
+    for f in sorted(glob.glob(os.path.join(common.REPO, "src", "prov", "tests", "xml", "*.xml"))):
+        try:
+            cases.append(("xmlfile:" + os.path.basename(f), open(f, encoding="utf-8").read()))
+        except Exception:
+            pass
     with Pool(common.NCPU) as pool:
         res = pool.map(run_case, cases, chunksize=8)
     log("implementation + oracle ran %d trees in %.1fs" % (len(res), time.time() - t0))
@@ -383,7 +468,10 @@ def run(tier, seed, log, model_runs=True, enlarged=False):
             continue
         if r.get("ops"):
             good.append((r["ops"], r["obs"], tree))
-        nrec = sum(len(v) for k, v in tree.items() if isinstance(v, dict) and k not in ("prefix", "bundle"))
+        if isinstance(tree, str):
+            nrec = tree.count("prov:id=") + tree.count(":ref=")
+        else:
+            nrec = sum(len(v) for k, v in tree.items() if isinstance(v, dict) and k not in ("prefix", "bundle"))
         if nrec >= 1:
             distinct.add(json.dumps(tree, sort_keys=True))
         seen = set()
@@ -396,7 +484,7 @@ def run(tier, seed, log, model_runs=True, enlarged=False):
                 continue
             seen.add(f["what"])
             violations.append({"kind": "failing-input", "failure": f, "case": label, "tree": tree,
-                               "program": [["LoadJson", I.py_to_jv(tree)]]})
+                               "program": [["LoadJson", I.py_to_jv(tree)]] if not isinstance(tree, str) else None})
     # correspondence on every tree
     ood = 0
     if model_runs:
@@ -428,7 +516,12 @@ def run(tier, seed, log, model_runs=True, enlarged=False):
                 "blocks) + single-point mutations of the 398 ProvToolbox files (value kind, wrap/unwrap, key reorder, "
                 "consistent prefix renaming, prefix moved into bundles) + originals; each tree: load (document or library "
                 "error), write/re-load stability by strict content, agreement with the specification reader, and the same "
-                "load in the extracted model. non-trivial = at least one record; distinct = distinct tree",
+                "load in the extracted model; JSON -> d -> XML -> d' for XML-expressible d. PROV-XML texts: specification-driven "
+                "generator of foreign dialects (any prefix or the default namespace for prov, declarations on inner elements, subtype "
+                "elements, xsi:type on record elements, every literal spelling, prov:other, comments, hadMember with several "
+                "entities, bundles re-binding prefixes) + the XML files shipped with the tests; each text: load, XML re-write/"
+                "re-load (force_types off/on), XML -> d -> JSON -> d', agreement with the specification reader XmlSpec.read. "
+                "non-trivial = at least one record; distinct = distinct tree/text",
         "samples": [cases[ncorp][1] if len(cases) > ncorp else None, cases[-1][0]],
         "traces_validated_against_impl": len(good) - ood if model_runs else 0,
         "disagreements_checked": len(disagreements),
